@@ -12,17 +12,16 @@ EXTRA_COQ_DIRS = ["LLP"]
 RUN_MOD = "C02.Run"
 MODEL_TARGETS = ["C02/Run.vo"]
 PROOF_TARGETS = ["C02/Lemmas.vo"]
-EXTRA_COQ_DIRS = ["LLP"]
 PROPS = ["C02/Props.v"]
 ALLOWED_AXIOMS = []
 IMPL_TIMEOUT = 30.0
-COQ_SHARD = 16
+COQ_SHARD = 6
 FUEL = L.FUEL
 
 RULE = ("grammars: (a) generator biased to LL(1) (distinct leading terminals, at most one nullable alternative, nullable "
         "chains), rejection-sampled by an independent FIRST/FOLLOW/PREDICT computation; (b) the family 'nullable symbol "
         "followed by a nullable symbol that has foreign followers' (E->s S|t T; S->X N a; T->N b; X->eps|b q; N->n|eps "
-        "with random names, order of alternatives, extra nullable links, LL(1) and non-LL(1) members); (c) the general "
+        "with random names, order of alternatives, extra nullable links, LL(1) and non-LL(1) members), chains of 'last symbol' FOLLOW dependencies in random key order, LL(1) grammars with one injected conflict (FIRST/FIRST, FIRST/FOLLOW, two nullable alternatives); (c) the general "
         "C01 generator (common prefixes, ambiguity) for the clause 'whenever is_ambiguous() is False'; never left "
         "recursive (independent check).  Every grammar is built with smart_factorization False and True.  Inputs per "
         "grammar: sampled sentences, sentences with one token inserted/deleted/replaced, random and short token strings; "
@@ -35,7 +34,8 @@ TRUSTED_BASE = [
     "GrammarError checks of _verify_grammar_structure_part1 are outside the model; the model-side validator wf_grammar "
     "(keys distinct and no terminals, rules stored under their own symbol, only known symbols, start symbol is a key, "
     "$END$ is a terminal) is evaluated on every built grammar by C02.Run and must be true (it is the hypothesis of the theorems)",
-    "parse_sound (C01) enters ll1_reject as an explicit hypothesis, it is proved in coq/C01",
+    "ll1_reject / parse_returns_derivation import C01.Props.parse_sound_build (proved in coq/C01, checked by C01's own run); "
+    "its hypothesis hyps_ok (C01's validator of the factorization) is evaluated by C02.Run on every generated grammar",
 ]
 ASSUMPTIONS = ["grammars use plain productions (templates are C05's subject)",
                "grammars are not left recursive (C03's subject); the generator filters with an independent check"]
@@ -149,6 +149,9 @@ def gen_ll1_candidate(rng):
             tail = []
             for _ in range(rng.randint(0, 3)):
                 tail.append(rng.choice(terms) if rng.random() < 0.5 else rng.choice(nts))
+            if later and rng.random() < 0.25:
+                # a (possibly nullable) prefix of later symbols in front of the leading symbol
+                head = [rng.choice(later) for _ in range(rng.randint(1, 2))] + head
             alt = tuple(head + tail)
             if alt not in alts:
                 alts.append(alt)
@@ -213,6 +216,84 @@ def gen_follow_family(rng):
     return _mk(nts, terms, prods, E)
 
 
+def gen_follow_chain(rng):
+    """FOLLOW must travel along a chain of 'last symbol' dependencies:  S -> A x ; A -> y B ; B -> z C ; C -> eps | w
+    (random depth, random order of the keys, optional nullable tails behind the last symbol)."""
+    depth = rng.randint(2, 4)
+    names = rng.sample(NT_POOL, depth + 3)
+    S, chain, Z = names[0], names[1:depth + 2], names[depth + 2]
+    letters = list(L.T_NAMES)
+    rng.shuffle(letters)
+    x, w = letters[0], letters[1]
+    lead = letters[2:]
+    prods = {S: [(chain[0], x)] if rng.random() < 0.7 else [(chain[0], x), (x, S)]}
+    use_z = rng.random() < 0.4
+    for i in range(depth):
+        a, b = chain[i], chain[i + 1]
+        t = lead[i % len(lead)]
+        alt = (t, b, Z) if (use_z and rng.random() < 0.5) else (t, b)
+        alts = [alt]
+        if rng.random() < 0.3:
+            alts.append((w, w))
+        prods[a] = alts
+    prods[chain[-1]] = [(), (w,)] if rng.random() < 0.5 else [(w,), ()]
+    nts = [S] + chain
+    if use_z:
+        prods[Z] = [()]
+        nts.append(Z)
+    head, rest = nts[0], nts[1:]
+    rng.shuffle(rest)
+    nts = [head] + rest
+    if rng.random() < 0.5:
+        rng.shuffle(nts)
+    return _mk(nts, sorted(letters), prods, S)
+
+
+def gen_one_conflict(rng):
+    """an LL(1) grammar with one injected conflict: FIRST/FIRST through a helper symbol, FIRST/FOLLOW through an
+    added empty alternative, or two nullable alternatives (conflict in the FOLLOW columns, e.g. $END$ only)."""
+    for _ in range(200):
+        g = gen_ll1_candidate(rng)
+        p = _plain(g)
+        if L.ref_left_recursive(p) or not L.ref_is_ll1(p, g["start"]):
+            continue
+        prods = {nt: [tuple(a) for a in alts] for nt, alts in g["prods"]}
+        nts = list(g["nts"])
+        kind_ = rng.choice(["first_first", "first_follow", "two_nullable"])
+        free = [n for n in NT_POOL if n not in nts]
+        if kind_ == "first_first":
+            cands = [(nt, a) for nt, alts in prods.items() for a in alts if a and a[0] in g["terms"]]
+            if not cands:
+                continue
+            nt, a = rng.choice(cands)
+            z = rng.choice(free)
+            prods[z] = [(a[0], rng.choice(g["terms"]))]
+            prods[nt] = prods[nt] + [(z, rng.choice(g["terms"]))]
+            nts.insert(rng.randint(0, len(nts)), z)
+        elif kind_ == "first_follow":
+            nul, first, follow, _ = L.ref_first_follow(p, g["start"])
+            cands = [nt for nt in nts if nt not in nul and first[nt] & follow[nt]]
+            if not cands:
+                continue
+            nt = rng.choice(cands)
+            prods[nt] = prods[nt] + [()]
+        else:
+            nul = L.ref_nullable(p)
+            cands = [nt for nt in nts if nt in nul]
+            if not cands:
+                continue
+            nt = rng.choice(cands)
+            z = rng.choice(free)
+            prods[z] = [()]
+            prods[nt] = prods[nt] + [(z,)]
+            nts.append(z)
+        g2 = _mk(nts, g["terms"], prods, g["start"])
+        if L.ref_left_recursive(_plain(g2)) or _has_duplicate_alts(g2):
+            continue
+        return g2
+    return gen_follow_family(rng)
+
+
 def _has_duplicate_alts(g):
     return any(len(set(map(tuple, alts))) != len(alts) for _, alts in g["prods"])
 
@@ -239,6 +320,7 @@ def gen_inputs(rng, g, n_base=13, n_short=7):
 def gen_cases(rng, tier):
     thorough = tier == "thorough"
     n_ll1, n_family, n_general = (2400, 400, 700) if thorough else (300, 60, 100)
+    n_chain, n_conflict = (400, 600) if thorough else (50, 80)
     cases = []
 
     def add(g, src, diag):
@@ -256,6 +338,10 @@ def gen_cases(rng, tier):
     for _ in range(n_family):
         g = gen_follow_family(rng)
         add(g, "family", thorough)
+    for _ in range(n_chain):
+        add(gen_follow_chain(rng), "chain", thorough)
+    for _ in range(n_conflict):
+        add(gen_one_conflict(rng), "conflict", thorough)
     got = 0
     while got < n_general:
         g = L.gen_grammar(rng, allow_leftrec=0.05)
@@ -448,8 +534,27 @@ def shrink_candidates(case):
                 yield dict(case, g=g2)
 
 
-TECHNIQUE = ("Coq proof over a hand-written Gallina model of the LL(1) table construction + per-run correspondence "
-             "(vm_compute vs implementation) + independent LL(1)/Earley oracle")
-LEVEL_TEXT = "in progress"
-LEVEL_NOTE = "in progress"
+TECHNIQUE = ("Coq proof (fixpoint iterations shown sound by invariant and complete by 'closed + enough fuel'; table by "
+             "membership characterisation; big-step simulation of the parser's stack machine on a derivation tree) over the "
+             "hand-written Gallina model coq/LLP + per-run correspondence (vm_compute vs implementation, both "
+             "smart_factorization values) + independent LL(1)/Earley/derivation-enumeration oracle")
+LEVEL_TEXT = ("Partial.  Full theorems (model level, all grammars accepted by the shape validator wf_grammar, all tokens): "
+              "nullable_exact, first_exact, follow_exact (the three fuelled fixpoints of _get_nullables/_calc_first_sets/"
+              "_calc_follow_sets equal the inductive Nullable/First/Follow; fixpoints_reached: the fuel suffices), predict_exact, "
+              "table_complete, table_sound, is_ambiguous_spec (False iff no cell holds two rules), ll1_iff_not_ambiguous (the table "
+              "of a grammar is conflict-free iff that grammar is LL(1)), ll1_reject + parse_returns_derivation (a non-sentence of the "
+              "USER's grammar is never accepted, an accepted text is a sentence and the tree its derivation; for any table, both "
+              "smart values; by C01.parse_sound_build, not re-proved).  Partial: ll1_reported_partial / "
+              "ll1_reported_no_common_prefix (LL(1) as written => is_ambiguous() False) only when the factorization is the identity "
+              "(factorization_identity: no two adjacent alternatives with the same first symbol), for other grammars only "
+              "ll1_reported_factorized (conflict-free iff the FACTORIZED grammar is LL(1)); ll1_complete_partial + "
+              "derivation_unique_partial + ll1_language_exact_partial (every sentence is accepted with any large enough budget and "
+              "the result is its unique derivation tree) only when the factorization introduced no suffix symbols.  Statement only "
+              "(ll1_reported_statement, ll1_complete_statement, c02_statement): the same for factorized grammars (needs "
+              "'factorization preserves LL(1)' and the un-splicing of suffix nodes) and 'a non-sentence ends in ParsingError' "
+              "(termination, C03).  Those clauses are tested on every run by the correspondence and the oracle "
+              "(both smart values, members and non-members).")
+LEVEL_NOTE = ("Trusted: Coq kernel + vm_compute; fidelity of the hand model coq/LLP (checked by correspondence on every run, incl. the "
+              "internal nullable/FIRST/FOLLOW sets and the table in the thorough tier); wf_grammar and C01's hyps_ok are "
+              "evaluated on every generated grammar (translation validation of the theorems' hypotheses); the tokenizer; the harness.")
 DESIGN_REF = "DESIGN.md section 8, C02"
